@@ -98,6 +98,9 @@ class BMCI:
             s_o: 2D array
             The covariance matrix describing the measurement uncertainty.
         """
+        # C-ordered float64: the projections below and in __find_hits are
+        # then summed in the same order and precision
+        y = np.ascontiguousarray(y, dtype=np.float64)
         self.n = y.shape[0]
         self.m = y.shape[1]
 
